@@ -1442,17 +1442,22 @@ class Exec(object):
         A protected program in a session that hides protected programs cannot be listed: run it. The programs
         of this machine print their string constants and do nothing else.
         """
-        want = b''
+        want = []
         for l in f.listing:
             text = l.split(b' ', 1)[1]
-            if text.startswith(b'PRINT "') and text.endswith(b'"'):
-                want += text[7:-1] + b'\r\n'
+            if text.startswith(b'PRINT "') and text.endswith(b'"') and text[7:-1]:
+                want.append(text[7:-1])
         r = self.ex(b'RUN', poll_cap=100000)
         self.run.probe('protected-program-checked-by-running-it')
-        if r.err is not None or r.out != want:
+        # empty lines are left out: a string that fills the last column of the screen is followed by two line ends
+        got = [l for l in r.out.split(b'\r\n') if l]
+        if r.err is not None or got != want:
+            i = 0
+            while i < len(got) and i < len(want) and got[i] == want[i]:
+                i += 1
             self.V('program-mismatch:' + f.lenclass(),
-                   'protected program %r (%d bytes) loaded in a session that hides protected programs: RUN printed %r, the '
-                   'program saved prints %r; error %r' % (f.name, f.L, _diff(r.out, want), _diff(want, r.out), r.err))
+                   'protected program %r (%d bytes) loaded in a session that hides protected programs: RUN printed %r as its '
+                   'non-empty line %d, the program saved prints %r; error %r' % (f.name, f.L, got[i:i + 1], i, want[i:i + 1], r.err))
             return False
         return True
 
